@@ -163,6 +163,7 @@ func c15Limbs(c *Ctx) {
 			if sp.kind == "sub" {
 				D = R.Sub(exact)
 			}
+			D = D.ZeroVars(s.zero) // words the path's branch conditions put to zero
 			Q, div := D.DivExact(two128)
 			if !div {
 				c.Fail("limb-identity", inst, where, "the returned value differs from the exact result by "+D.String()+", which is not a multiple of 2^128: the result is wrong even when it fits")
@@ -178,7 +179,7 @@ func c15Limbs(c *Ctx) {
 				bad = true
 				continue
 			}
-			want, got := Q.Supports(), flag.B.Supports()
+			want, got := Q.Supports(), flag.B.ZeroVars(s.zero).Supports()
 			same := strings.Join(want, "|") == strings.Join(got, "|")
 			c.Check(same, "limb-identity", inst, where, ifElse(same,
 				"exact = R + 2^128*("+Q.String()+") and the flag is set exactly when that term is non-zero ("+supportsText(got)+")",
